@@ -75,3 +75,46 @@ func VerifFailSwitch(s interface{}) *int32 {
 	return flag
 }
 
+
+// ---- tracing: every command of every connection of this store is announced before it is sent (Do only: a round
+// trip) and reported after its reply, together with the commands that were pipelined (Send) since the last round trip
+
+type traceConn struct {
+	redigolib.Conn
+	before func(cmd string)
+	after  func(cmd string, sent [][]interface{}, reply interface{}, err error)
+	sent   *[][]interface{}
+}
+
+func (c traceConn) Send(cmd string, args ...interface{}) error {
+	*c.sent = append(*c.sent, append([]interface{}{cmd}, args...))
+	return c.Conn.Send(cmd, args...)
+}
+
+func (c traceConn) Do(cmd string, args ...interface{}) (interface{}, error) {
+	if cmd == "" {
+		return c.Conn.Do(cmd, args...)
+	}
+	c.before(cmd)
+	reply, err := c.Conn.Do(cmd, args...)
+	sent := *c.sent
+	*c.sent = nil
+	c.after(cmd, sent, reply, err)
+	return reply, err
+}
+
+// VerifTraceConn installs the two callbacks on every connection this store opens from now on.
+func VerifTraceConn(s interface{}, before func(cmd string), after func(cmd string, sent [][]interface{}, reply interface{}, err error)) {
+	ps := s.(*peerStore)
+	inner := ps.rb.pool.Dial
+	ps.rb.pool = &redigolib.Pool{
+		MaxIdle: 3,
+		Dial: func() (redigolib.Conn, error) {
+			c, err := inner()
+			if err != nil {
+				return nil, err
+			}
+			return traceConn{Conn: c, before: before, after: after, sent: new([][]interface{})}, nil
+		},
+	}
+}
